@@ -186,7 +186,14 @@ func runHarness(lp *LoadedPkg, hs *HarnessSpec, tier int, workers int, verbose b
 				if qto == 0 {
 					qto = []int{10000, 60000}[tier]
 				}
-				sol, err := NewSolver("z3", qto)
+				solBin := "z3"
+				if hs.IntMode {
+					solBin = "z3-new" // z3 5.1.0 decides the non-linear integer queries that 4.8.12 times out on
+				}
+				if b := os.Getenv("GOSYM_SOLVER"); b != "" {
+					solBin = b
+				}
+				sol, err := NewSolver(solBin, qto)
 				if err != nil {
 					panic(err)
 				}
@@ -202,7 +209,11 @@ func runHarness(lp *LoadedPkg, hs *HarnessSpec, tier int, workers int, verbose b
 				ex.level = lvl
 				ex.sampleOK = lvl == 0
 				if tier == 1 && !hs.NoXCheck {
-					if x, err := NewSolver("z3-new", qto); err == nil {
+					other := "z3-new"
+					if solBin == "z3-new" {
+						other = "z3"
+					}
+					if x, err := NewSolver(other, qto); err == nil {
 						x.resetMode = true
 						ex.xsol = x
 					}
